@@ -19,7 +19,7 @@ RULE = ("deterministic_choice(id, population, weights / cum_weights) with ids = 
         "distinct by arguments.")
 RULE += (' Since rounds 6-7: unhashable population elements, weights as tuples, exact-boundary hash positions for weights vs cum_weights with float rounding error, the global random generator untouched by calls with an id.')
 ASSUMPTIONS = [
-    "positive weights lie in [1e-9, 1e9] (the magnitudes the language can express, cf. C03) or are exactly 0: with subnormal "
+    "positive weights lie in [1e-9, 1e9] (the magnitudes the language can express, cf. C03), optionally scaled as a whole vector by 1e-280 .. 1e280, or are exactly 0: with subnormal "
     "totals such as 5e-324 the product u*total rounds onto the total itself - a limit of double arithmetic that "
     "random.choices shares - so such vectors are outside the explored domain (found by a thorough run, generator corrected)",
     "the documented errors are those of the function's docstring and random.choices: TypeError when both weights and "
@@ -77,6 +77,8 @@ def good(draw):
                                              st.sampled_from(EXTREME_IDS + ["", "0", " "]))),
             "pop": [draw(_vals) for _ in range(n)], "tuple": draw(st.booleans()), "ws": ws,
             "unhashable": draw(st.integers(0, 3)) == 0, "wtuple": draw(st.integers(0, 2)) == 0,
+            # the whole vector scaled by a power of ten (1e-280 .. 1e280): only the shares matter
+            "scale_exp": draw(st.sampled_from([0, 0, 0, -17, -100, -280, 20, 100, 280, -30, 15])),
             "c": draw(st.integers(1, max(1, (2 ** 20 - 1) // n))), "seed": draw(st.integers(0, 2 ** 32))}
 
 
@@ -114,6 +116,9 @@ def judge(case):
     vals0 = copy.deepcopy([e.v for e in pop])
     ws = list(case["ws"])
     n = len(pop)
+    if case["kind"] == "good" and case.get("scale_exp"):
+        ws = [float(w) * 10.0 ** case["scale_exp"] for w in ws]
+        tags.append("scaled-by-1e%d" % case["scale_exp"])
     if case["kind"] == "good":
         uid = case["id"]
         cum = list(itertools.accumulate(ws))
@@ -267,12 +272,33 @@ def dyadic_cases():
         yield {"kind": "dyadic", "w": w, "n": n, "ms": [6, 5, 4, 3, 1]}
     yield {"kind": "dyadic", "ws": [0.1, 0.2, 0.3, 0.4, 0.1, 0.2, 0.3, 0.4], "ms": [4, 3, 2]}
     yield {"kind": "dyadic", "ws": [0.1] * 7 + [0.3], "ms": [3, 2, 1]}
+    # no weights versus equal integer weights, population sizes 1..64, at positions k/16 (for n = 10, 20 ... the slice border
+    # k/n is not a binary fraction, so any arithmetic on a rounded slice width puts such a unit into the wrong slice)
+    for n0 in range(1, 65, 8):
+        yield {"kind": "dyadic", "unweighted": list(range(n0, n0 + 8)), "ms": [4, 3, 2, 1]}
 
 
 def judge_dyadic(case):
     from . import c03
 
     dc = sut.binning().deterministic_choice
+    if "unweighted" in case:
+        viol = []
+        consulted = 0
+        for n in case["unweighted"]:
+            pop = [Tag(i, None) for i in range(n)]
+            for g in sorted({(k << 32) >> m for m in case["ms"] for k in range(1 << m)}):
+                with c03._Subst(g) as sub:
+                    a = dc("unit", pop)
+                    b = dc("unit", pop, [3] * n)
+                    c = dc("unit", pop, cum_weights=[3 * (i + 1) for i in range(n)])
+                    consulted += sub.calls
+                if a is not b or a is not c:
+                    viol.append("hash position %d/2^32 (= %g exactly), %d items: no weights selects #%s, equal integer weights #%s, their "
+                                "running totals #%s" % (g, g / 2 ** 32, n, getattr(a, "i", a), getattr(b, "i", b), getattr(c, "i", c)))
+                    break
+        return {"viol": viol[:3], "nontrivial": True, "tags": ["dyadic-positions", "unweighted"] + ([] if consulted else ["substitution-not-consulted"]),
+                "key": case, "sample": {"dyadic_unweighted_sizes": case["unweighted"]}}
     ws = list(case["ws"]) if "ws" in case else [case["w"]] * case["n"]
     n = len(ws)
     cum = list(itertools.accumulate(ws))
